@@ -209,28 +209,43 @@ def findBest (c : Cache) (prompt : List Tok) (now : Nat) : Except Fail (Cache ×
                         cells := copyPrefix c.cells ls.id os.id longest }, oi, longest)
         else .ok (c, oi, longest)
 
-/-- LoadCacheSlot.  `canResume` stands for `cache.CanResume(slot.Id, numPast)` (always true for a
-    Causal cache without a sliding window; the theorems hold for any answer). -/
-def loadCacheSlot (c : Cache) (prompt : List Tok) (now : Nat) (canResume : Bool) :
-    Except Fail (Cache × Nat × List Tok) := do
-  let (c, i, numPast) ←
-    if !c.multiUser then (do let r ← findLongest c.slots prompt; pure (c, r.1, r.2))
-    else findBest c prompt now
-  let c := { c with slots := setSlot c.slots i fun s => { s with inUse := true, lastUsed := now } }
+/-- the slot-selection half of LoadCacheSlot (policy + fork): cache, slot index, numPast -/
+def findSlot (c : Cache) (prompt : List Tok) (now : Nat) : Except Fail (Cache × Nat × Nat) :=
+  if !c.multiUser then
+    match findLongest c.slots prompt with
+    | .ok r => .ok (c, r.1, r.2)
+    | .error e => .error e
+  else findBest c prompt now
+
+/-- the rest of LoadCacheSlot once slot `i` with `numPast` common inputs has been chosen -/
+def loadTail (c : Cache) (i numPast : Nat) (prompt : List Tok) (now : Nat) (canResume : Bool) :
+    Except Fail (Cache × Nat × List Tok) :=
   let numPast := if numPast = prompt.length then numPast - 1 else numPast
   let numPast := if numPast > 0 && !canResume then 0 else numPast
   let id := (getSlot c.slots i).id
   let r := remove c.canShift c.cells id numPast maxI32
-  let (cells, numPast) ←
-    match r.2 with
-    | none => pure (r.1, numPast)
-    | some _ =>
-      let r2 := remove c.canShift r.1 id 0 maxI32
-      match r2.2 with
-      | none => pure (r2.1, 0)
-      | some _ => throw Fail.removeFailed
-  let c := { c with cells := cells, slots := setSlot c.slots i fun s => { s with inputs := s.inputs.take numPast } }
-  pure (c, i, prompt.drop numPast)
+  match r.2 with
+  | none =>
+    .ok ({ c with cells := r.1,
+                  slots := setSlot c.slots i fun s => { s with inUse := true, lastUsed := now, inputs := s.inputs.take numPast } },
+         i, prompt.drop numPast)
+  | some _ =>
+    -- "Some models don't support partial erasure"
+    let r2 := remove c.canShift r.1 id 0 maxI32
+    match r2.2 with
+    | none =>
+      .ok ({ c with cells := r2.1,
+                    slots := setSlot c.slots i fun s => { s with inUse := true, lastUsed := now, inputs := s.inputs.take 0 } },
+           i, prompt.drop 0)
+    | some _ => .error .removeFailed
+
+/-- LoadCacheSlot.  `canResume` stands for `cache.CanResume(slot.Id, numPast)` (always true for a
+    Causal cache without a sliding window; the theorems hold for any answer). -/
+def loadCacheSlot (c : Cache) (prompt : List Tok) (now : Nat) (canResume : Bool) :
+    Except Fail (Cache × Nat × List Tok) :=
+  match findSlot c prompt now with
+  | .error e => .error e
+  | .ok (c1, i, numPast) => loadTail c1 i numPast prompt now canResume
 
 /-- ShiftDiscard -/
 def shiftDiscard (numCtx inputLen numKeep : Nat) : Nat :=
